@@ -2,7 +2,8 @@
 
 // Machine-checked contracts of the CSV plugin (C18). Reader: every record csv.Reader.Read returns is emitted, in order, then
 // the reader's outcome (EOF completes, any other error is forwarded). Writer: every row is written once with
-// csv.Writer.Write; the count of rows written is emitted once, after a flush, before the terminal notification.
+// csv.Writer.Write; the count of rows written is emitted once, after a flush, before the terminal notification; a failure of the
+// underlying writer, which csv.Writer only reports after the flush (Error()), ends the stream instead of the completion.
 // Comments only. Assumed (T4): encoding/csv.
 
 package rocsv
@@ -22,8 +23,9 @@ package rocsv
 //@   props C18 C09
 //@   ghost n int = 0
 //@   inv count == n && n >= 0
-//@   track call.Writer.Write call.Writer.Flush
+//@   track call.Writer.Write call.Writer.Flush call.Writer.Error
 //@   on next(ctx, row) when res(call.Writer.Write) == nil : emits call.Writer.Write(writer, row) ; n' = n + 1
 //@   on next(ctx, row) when res(call.Writer.Write) != nil : emits call.Writer.Write(writer, row), call.Writer.Flush(writer), Next(ctx, n), Error(ctx, res(call.Writer.Write))
 //@   on error(ctx, err) : emits call.Writer.Flush(writer), Next(ctx, n), Error(ctx, err)
-//@   on complete(ctx) : emits call.Writer.Flush(writer), Next(ctx, n), Complete(ctx)
+//@   on complete(ctx) when res(call.Writer.Error) == nil : emits call.Writer.Flush(writer), Next(ctx, n), call.Writer.Error(writer), Complete(ctx)
+//@   on complete(ctx) when res(call.Writer.Error) != nil : emits call.Writer.Flush(writer), Next(ctx, n), call.Writer.Error(writer), Error(ctx, res(call.Writer.Error))
